@@ -231,6 +231,8 @@ class C19(Check):
             if group.get("zero_channel"):
                 base["zero_channel"] = True
             yield dict(base, xf=["base"])
+            if not group.get("zero_channel"):
+                yield dict(base, xf=["base"], verbose=True)
             for k in c["xshifts"]:
                 yield dict(base, xf=["xshift", k])
             for k in c["yshifts"]:
@@ -420,11 +422,18 @@ class C19(Check):
         return o, X, Y, Xt
 
     @staticmethod
-    def _fit_plsr(X, Y, nc):
+    def _fit_plsr(X, Y, nc, verbose=False):
         from tensorly.regression import CP_PLSR
 
-        m = CP_PLSR(n_components=nc, tol=1e-12, n_iter_max=200, random_state=0, verbose=False)
-        m.fit(X, Y)
+        m = CP_PLSR(n_components=nc, tol=1e-12, n_iter_max=200, random_state=0, verbose=verbose)
+        if verbose:  # the chatty switch is a configuration like any other; its output is discarded
+            import contextlib
+            import io
+
+            with contextlib.redirect_stdout(io.StringIO()):
+                m.fit(X, Y)
+        else:
+            m.fit(X, Y)
         return m
 
     @staticmethod
@@ -459,14 +468,14 @@ class C19(Check):
         return worst if np.isfinite(worst) else 0.0
 
     def _plsr_base(self, case):
-        key = (case["n"], tuple(case["xd"]), tuple(case["yd"]), case["nc"], case["off"], case.get("seed", 0), bool(case.get("zero_channel")))
+        key = (case["n"], tuple(case["xd"]), tuple(case["yd"]), case["nc"], case["off"], case.get("seed", 0), bool(case.get("zero_channel")), bool(case.get("verbose")))
         hit = self._plsr_cache.get(key)
         if hit is not None:
             return hit
         o, X, Y, Xt = self._plsr_data(case)
         X0, Y0 = X.copy(), Y.copy()
         try:
-            m = self._fit_plsr(X, Y, case["nc"])
+            m = self._fit_plsr(X, Y, case["nc"], verbose=bool(case.get("verbose")))
             snap = self._snapshot(m, Xt)
             err = None
         except Exception as e:  # fit (or predict on the base model) raised
@@ -537,6 +546,17 @@ class C19(Check):
                 if bad(abs(nrm - 1.0), TOL_PLSR):
                     ctx.violation(f"CP_PLSR.fit/y-loading-not-unit-norm/{ycls}",
                                   f"{case}: ||Y_factors[1][:, {c}]|| = {nrm!r}; column={lst(f[:, c])}")
+            # predictions are per-sample: 1030 samples at once (more than any plausible internal block size) = the same rows one block at a time
+            try:
+                reps = 1030 // Xt.shape[0] + 1
+                big = np.concatenate([Xt] * reps, axis=0)[:1030]
+                pb = np.asarray(m.predict(big.copy()), dtype=float)
+                ps = np.asarray(m.predict(Xt.copy()), dtype=float)
+                exp_big = np.concatenate([ps] * reps, axis=0)[:1030]
+                cmp(f"CP_PLSR.predict/many-samples-differ-from-per-sample-predictions/{ycls}", "predict(1030 samples) vs the same samples predicted 3 at a time",
+                    pb.reshape(1030, -1), exp_big.reshape(1030, -1))
+            except Exception as e:
+                ctx.violation(f"CP_PLSR.predict/raises-on-many-samples/{type(e).__name__}", f"{case}: {type(e).__name__}: {e}")
             # history: fit_transform, the caller rescales the scores it was handed IN PLACE (they are the caller's arrays), then asks the
             # estimator to transform its training data again: the estimator must not have been changed through the returned arrays
             try:
